@@ -148,6 +148,9 @@ pub fn gen_program(rng: &mut Rng, tier: Tier) -> Program {
         s
     };
     let order = rand_order(rng, init.kinds);
+    if rng.chance(0.7) {
+        return gen_program_adaptive(rng.next(), init, order, kernel);
+    }
     if dim == 3 && rng.chance(0.25) {
         // template: an operation changes a face that a later 3-sew walks
         if let Some((t, close, sew3)) = crate::gen3::closing_then_three_sew(rng, &init) {
@@ -203,6 +206,102 @@ pub fn gen_program(rng: &mut Rng, tier: Tier) -> Program {
         apply_on_model(&mut cur, &op);
         ops.push(op);
     }
+    if ops.len() < 2 {
+        ops.push(Op::Beta { i: 1, d: 1 });
+        ops.push(Op::Beta { i: 2, d: 1 });
+    }
+    Program { init, order, ops }
+}
+
+/// Main dart argument of an operation (what it is "about").
+fn principal(op: &Op) -> Option<u32> {
+    Some(match op {
+        Op::Swap { e } | Op::CutInner { e, .. } | Op::CutOuter { e, .. } | Op::Collapse { e } | Op::InsertVertex { e, .. } | Op::InsertVertices { e, .. } => *e,
+        Op::Fan { f, .. } | Op::FanConvex { f, .. } | Op::EarclipCcw { f, .. } | Op::EarclipCw { f, .. } => *f,
+        Op::Link { l, .. } | Op::Sew { l, .. } | Op::Unlink { l, .. } | Op::Unsew { l, .. } => *l,
+        Op::ReadV { id } | Op::WriteV { id, .. } | Op::RemoveV { id } | Op::ReadA { id, .. } | Op::WriteA { id, .. } | Op::RemoveA { id, .. } => *id,
+        Op::CellId { d, .. } | Op::Orbit { d, .. } | Op::Beta { d, .. } | Op::WriteACell { d, .. } | Op::WriteVCell { d, .. } | Op::ReadVCell { d } | Op::ReadACell { d, .. } => *d,
+        _ => return None,
+    })
+}
+
+/// Programs generated *while running them* one operation per transaction on the real map:
+/// every operation is drawn on the state its predecessors really produced (a model of the
+/// kernels' effects is not needed), preferring arguments among the darts the previous operations
+/// touched, so that later calls read what earlier ones wrote — the only situation in which a
+/// composed transaction can differ from the sequence.
+fn gen_program_adaptive(seed: u64, init: State, order: KindOrder, kernel: bool) -> Program {
+    let ops: Arc<std::sync::Mutex<Vec<Op>>> = Arc::new(std::sync::Mutex::new(vec![]));
+    let (ops2, init2, order2) = (ops.clone(), init.clone(), order.clone());
+    let _ = execute_serial(move || {
+        let mut rng = Rng::new(seed);
+        let (map, _) = build_map(&init2, &order2);
+        fast_stm::verif::set_sim_thread(1, vec![]);
+        faults::reset_thread();
+        ops2.lock().unwrap().clear();
+        let n_ops = 2 + [0, 0, 1, 1, 2, 3, 4][rng.below(7)];
+        let mut cur = init2.clone();
+        let mut focus: std::collections::BTreeSet<u32> = Default::default();
+        let mut uniq = 0u64;
+        let mut draws = 0;
+        while ops2.lock().unwrap().len() < n_ops && draws < 4 * n_ops {
+            draws += 1;
+            let want_focus = !focus.is_empty() && rng.chance(0.75);
+            let mut chosen: Option<Op> = None;
+            for _try in 0..10 {
+                let cand = if kernel && rng.chance(0.6) {
+                    match kernel_op(&mut rng, &cur, None) {
+                        Some(Op::MoveToAverage { .. }) | None => continue,
+                        Some(o) => o,
+                    }
+                } else {
+                    let mut g = OpGen::new(&mut rng, &cur, 2);
+                    g.p_valid = 0.93;
+                    if rng.chance(0.6) {
+                        match g.topo(&mut rng) {
+                            Op::Link { i, l, r } if rng.chance(0.5) => Op::Sew { i, l, r },
+                            Op::Unlink { i, l } if rng.chance(0.5) => Op::Unsew { i, l },
+                            o => o,
+                        }
+                    } else {
+                        match g.data(&mut rng, &mut uniq) {
+                            Op::Audit { .. } => continue,
+                            o => o,
+                        }
+                    }
+                };
+                let hit = principal(&cand).map(|d| focus.contains(&d)).unwrap_or(false);
+                chosen = Some(cand);
+                if !want_focus || hit {
+                    break;
+                }
+            }
+            let Some(op) = chosen else { continue };
+            ops2.lock().unwrap().push(op.clone());
+            let o = run_tx(&map, &Tx { runner: Runner::WithErr, ops: vec![op], f1: vec![], f2: vec![], f1_attempt: 0 });
+            if !matches!(o.value, TxValue::Ok(_)) && rng.chance(0.85) {
+                // a failed call changes nothing (C06's business): mostly keep programs whose
+                // operations all succeed, the statement's domain
+                ops2.lock().unwrap().pop();
+                continue;
+            }
+            let next = map.snapshot(init2.kinds);
+            for d in 1..next.n() {
+                let changed = d >= cur.n() || cur.beta[d] != next.beta[d] || cur.vtx[d] != next.vtx[d] || cur.unused[d] != next.unused[d];
+                if changed {
+                    focus.insert(d as u32);
+                    for i in 0..3u8 {
+                        let x = next.b(i, d as u32);
+                        if x != 0 {
+                            focus.insert(x);
+                        }
+                    }
+                }
+            }
+            cur = next;
+        }
+    });
+    let mut ops = ops.lock().unwrap().clone();
     if ops.len() < 2 {
         ops.push(Op::Beta { i: 1, d: 1 });
         ops.push(Op::Beta { i: 2, d: 1 });
@@ -342,7 +441,31 @@ fn run_one(tier: Tier, i: u64, seed: u64, c: &mut Counters, known: &std::collect
             c.inc("program_panics");
             c.note("program_panics", || format!("seed {seed} ops {:?}: {m}", prog.ops));
         }
-        _ => c.inc("program_blocked"),
+        other => {
+            c.inc("program_blocked");
+            let kind = match other {
+                Outcome::Deadlock(_) => "deadlock",
+                Outcome::StepBound => "step bound",
+                Outcome::Livelock => "livelock",
+                _ => "?",
+            };
+            c.note("program_blocked", || format!("seed {seed} ({kind}) ops {:?}", prog.ops));
+            // which leg blocks? (a kernel waiting in `retry()` for a value nobody will write)
+            let p3 = prog.clone();
+            let seq = execute_serial(move || run_sequential(&p3));
+            let p3 = prog.clone();
+            let comp = execute_serial(move || run_composed(&p3, &[]));
+            match (seq.outcome, comp.outcome) {
+                (Outcome::Done(sq), Outcome::Deadlock(_) | Outcome::Livelock) if sq.results.iter().all(Result::is_ok) => {
+                    push(c, "composed-blocks-sequence-succeeds".into(), "every operation succeeds in its own transaction, but the single transaction never finishes".into(), Payload { program: (*prog).clone(), leg: "composed".into(), f2: vec![], noise: vec![], sched: None });
+                }
+                (Outcome::Deadlock(_) | Outcome::Livelock, Outcome::Done((TxValue::Ok(_), _, _))) => {
+                    push(c, "composed-succeeds-sequence-blocks".into(), "all operations succeed inside one transaction, but run one per transaction some operation never finishes".into(), Payload { program: (*prog).clone(), leg: "composed".into(), f2: vec![], noise: vec![], sched: None });
+                }
+                (Outcome::Deadlock(_) | Outcome::Livelock, Outcome::Deadlock(_) | Outcome::Livelock) => c.inc("program_blocked_in_both_legs"),
+                _ => c.inc("program_blocked_other"),
+            }
+        }
     }
     out
 }
@@ -400,6 +523,21 @@ fn reproduces(p: &Payload) -> Option<(String, String)> {
             let r = execute_serial(move || (run_sequential(&p2.program), run_composed(&p2.program, &p2.f2)));
             match r.outcome {
                 Outcome::Done((seq, (v, fin, _))) => judge(&seq, &v, &fin, if p.leg == "composed" { "composed" } else { "reexecuted" }),
+                Outcome::Deadlock(_) | Outcome::Livelock => {
+                    let p2 = p.clone();
+                    let seq = execute_serial(move || run_sequential(&p2.program));
+                    let p2 = p.clone();
+                    let comp = execute_serial(move || run_composed(&p2.program, &p2.f2));
+                    match (seq.outcome, comp.outcome) {
+                        (Outcome::Done(sq), Outcome::Deadlock(_) | Outcome::Livelock) if sq.results.iter().all(Result::is_ok) => {
+                            Some(("composed-blocks-sequence-succeeds".into(), "every operation succeeds in its own transaction, but the single transaction never finishes".into()))
+                        }
+                        (Outcome::Deadlock(_) | Outcome::Livelock, Outcome::Done((TxValue::Ok(_), _, _))) => {
+                            Some(("composed-succeeds-sequence-blocks".into(), "all operations succeed inside one transaction, but run one per transaction some operation never finishes".into()))
+                        }
+                        _ => None,
+                    }
+                }
                 _ => None,
             }
         }
